@@ -275,12 +275,14 @@ class Assembler:
         sig = src.text[f['sig_start']:f['body_open']].rstrip()
         body = src.text[f['body_open']:f['body_close'] + 1]
         sha = src.sha(f['sig_start'], f['body_close'] + 1)
-        opt = dict(ret=None, stub=False, twin='', rules=None, drops=[], subs=[], sigsubs=[], tail=False, free=None, cuts=[])
+        opt = dict(ret=None, stub=False, twin='', rules=None, drops=[], subs=[], sigsubs=[], tail=False, free=None, cuts=[], inline=False)
         for o_ in opts:
             if o_ == 'stub':
                 opt['stub'] = True
             elif o_ == 'tail':
                 opt['tail'] = True
+            elif o_ == 'inline_if_more':
+                opt['inline'] = True
             elif o_.startswith('free='):
                 opt['free'] = o_[5:]
             elif o_.startswith('ret='):
@@ -363,6 +365,13 @@ class Assembler:
                 raise LostAnchor('substitution anchor %r lost in %s' % (a, qn))
             log.append(dict(rule='SUB', before=a, after=b))
             body = body.replace(a, b)
+        if opt['inline']:
+            # R8i is only sound for the helper body it was derived from: check the extracted if_more body textually
+            hf = src.find_fn('if_more', 0, len(src.text))
+            hb = re.sub(r'\s+', ' ', src.text[hf['body_open'] + 1:hf['body_close']]).strip()
+            if hb != rewrite.IF_MORE_BODY:
+                raise LostAnchor('if_more body changed (%r): inlining rule R8i not applicable' % hb[:120])
+            body = rewrite.rule_R8i(body, log)
         body = rewrite.apply_rules(body, log, opt['rules'])
         if opt['tail']:
             body = rewrite.rule_R14(body, log)
@@ -477,14 +486,23 @@ class Assembler:
                 while m[k] in ' \t\n':
                     k += 1
                 if m[k] != '{':
-                    e = k
-                    while e < len(m):
-                        if m[e] in '([{':
-                            e = match_close(m, e)
-                        elif m[e] in ')]},;':
-                            break
-                        e += 1
-                    body = body[:k] + '{ ' + body[k:e].rstrip() + ' }' + body[e:]
+                    # the closure is the last argument of a call: its body runs to that call's closing parenthesis
+                    depth, q = 0, h.start() - 1
+                    while q >= 0:
+                        if m[q] in ')]}':
+                            depth += 1
+                        elif m[q] in '([{':
+                            if depth == 0:
+                                break
+                            depth -= 1
+                        q -= 1
+                    if q < 0 or m[q] != '(':
+                        raise LostAnchor('%s: closure %d is not an argument of a call' % (qn, n))
+                    e = match_close(m, q)
+                    inner = body[k:e].rstrip()
+                    if inner.endswith(','):
+                        inner = inner[:-1].rstrip()
+                    body = body[:k] + '{ ' + inner + ' }' + body[e:]
                 body = body[:h.start()] + ' '.join(t.strip() for t in sec['text']) + ' ' + body[h.end():]
             elif sec['kind'] in ('after', 'before', 'afterblock'):
                 snippet = sec['arg'].strip('"')
